@@ -820,7 +820,7 @@ fn gen_step(rng: &mut Rng, n: usize, tags: &mut Vec<&'static str>) -> Step {
         "is_windows" | "print_env" => vec![],
         "uname" => if rng.chance(1, 2) { vec!["-a".to_string()] } else { vec![] },
         "glob_cp" => vec![["@T/src/*.txt", "@T/src/**/*.txt", "@T/src/a.txt", "@T/none/*.txt", "@T/none"][rng.below(5)].to_string(), "@T/dst".to_string()],
-        "glob_chmod" => vec![["777", "644", "755"][rng.below(3)].to_string(), ["@T/src/*.txt", "@T/none/*", "@T/dst/*"][rng.below(3)].to_string()],
+        "glob_chmod" => vec![["777", "644", "755", "+644", "100644", "0600", "+0755"][rng.below(7)].to_string(), ["@T/src/*.txt", "@T/none/*", "@T/dst/*"][rng.below(3)].to_string()],
         "join_path" => (0..1 + rng.below(4)).map(|_| safe_token(rng)).collect(),
         "sha256sum" | "sha512sum" => vec![["@T/src/a.txt", "@T/none"][rng.below(2)].to_string()],
         "wget" => {
@@ -1059,6 +1059,8 @@ impl Prop for C19Prop {
                 ("glob_cp", Some("o4"), &["@T/none/*.txt"]),
                 ("glob_chmod", Some("o5"), &["777", "@T/src/*.txt"]),
                 ("glob_chmod", Some("o6"), &["zzz", "@T/src/*.txt"]),
+                ("glob_chmod", Some("o14"), &["+644", "@T/src/*.txt"]),
+                ("chmod_glob", Some("o15"), &["100644", "@T/src/*.txt"]),
                 ("sha256sum", Some("o7"), &["@T/src/a.txt"]),
                 ("sha256sum", Some("o8"), &["@T/none"]),
                 ("sha512sum", Some("o9"), &["@T/src/b.txt"]),
@@ -1172,7 +1174,9 @@ impl Prop for C19Prop {
             if !seg.ends_with(":[]:[]:[]:1") || !seg.starts_with("run:") {
                 return None;
             }
-            let octal = |m: &str| !m.is_empty() && m.len() <= 4 && m.bytes().all(|b| (b'0'..=b'7').contains(&b));
+            // (exactly the modes the command rejects: it reads them with from_str_radix(.., 8), which
+            // takes a leading `+` and any number of digits; `+644` and `100644` are ACCEPTED modes)
+            let octal = |m: &str| u32::from_str_radix(m, 8).is_ok();
             match step.alias.as_str() {
                 // glob_chmod <not an octal number> <glob matching something>: chmod fails inside the
                 // for loop, `release ${scope::glob_chmod::handle}` is never reached
